@@ -931,9 +931,12 @@ class PyGen:
                     elif j == 2:
                         expr = inner + [tk('(')] + (self.sub('test') if cs.bool() else []) + [tk(')')]
                     elif j == 3:
-                        expr = inner + [tk(cs.pick(['+', 'or', '**', 'if']))] + (self.sub('or') + [tk('else')] + self.sub('or') if False else self.sub('or'))
-                        if expr[len(inner)].s == 'if':
-                            expr += [tk('else')] + self.sub('or')
+                        # (the right operand binds tighter than the operator, so that redundant parentheses around it stay redundant)
+                        op = cs.pick(['+', 'or', '**', 'if'])
+                        if op == 'if':
+                            expr = inner + [tk('if')] + self.sub('or') + [tk('else')] + self.sub('test')
+                        else:
+                            expr = inner + [tk(op)] + self.sub({'+': 'term', 'or': 'and', '**': 'factor'}[op])
                     elif j == 4:
                         expr = inner + [tk('.'), self.name(), tk('(')] + [tk(')')] + [tk('.'), self.name()]
                     else:
